@@ -151,7 +151,7 @@ pub fn gen(rng: &mut ChaCha20Rng, n: usize, thorough: bool) -> Vec<Case> {
     for k in 0..n {
         let mut tags = vec!["src:structured".to_string()];
         let (ty, b): (&str, Vec<u8>) = match k % 10 {
-            0..=4 => { let t = rtx(rng, f, &mut tags); let r = ref_tx(&t); if tx_is_canonical(&t) { valid.push(("tx".to_string(), r.clone())); out.push(mk_ref("tx", &r, tags)); continue; } ("tx", r) }
+            0..=4 => { let t = rtx_stray(rng, f, &mut tags); let r = ref_tx(&t); if tx_is_canonical(&t) { valid.push(("tx".to_string(), r.clone())); out.push(mk_ref("tx", &r, tags)); continue; } ("tx", r) }
             // every structured case is the REFERENCE encoding (txgen::ref_*, independent of the crate's encoder) of a canonical value: must be accepted
             5 => { let i = rtxin(rng, f, &mut tags); let mut r = Vec::new(); ref_txin(&mut r, &i); let t1 = Transaction { version: 2, lock_time: elements::LockTime::ZERO, input: vec![i], output: vec![] };
                    if tx_is_canonical(&t1) { valid.push(("txin".to_string(), r.clone())); out.push(mk_ref("txin", &r, tags)); continue; } ("txin", r) }
